@@ -91,7 +91,7 @@ struct Exec
 		if (rp.style == R_WAIT_NONBLOCK) {
 			rd.s->async_wait(ip::tcp::socket::wait_read, [this, &rd, &wr](error_code const& ec) {
 				tick();
-				if (ec) { if (ec == asio::error::eof) on_eof(rd, wr); return; }
+				if (ec) { if (ec == asio::error::eof) on_eof(rd, wr); else if (ec == asio::error::operation_aborted && cancel_ms >= 0 && inc == 1 && !rd.closed) post_read(rd, wr); return; }
 				if (rd.closed) return;
 				for (;;) {
 					error_code e2; std::size_t n = rd.s->read_some(asio::buffer(rd.rbufs[0]), e2);
@@ -109,7 +109,7 @@ struct Exec
 		rd.s->async_read_some(mb, [this, &rd, &wr](error_code const& ec, std::size_t n) {
 			tick();
 			if (ec == asio::error::eof) { on_eof(rd, wr); return; }
-			if (ec) { if (ec != asio::error::operation_aborted) fail("read_error: " + ecs(ec)); return; }
+			if (ec) { if (ec != asio::error::operation_aborted) fail("read_error: " + ecs(ec)); else if (cancel_ms >= 0 && inc == 1 && !rd.closed) post_read(rd, wr); return; }
 			size_t cap = 0; for (auto& x : rd.rbufs) cap += x.size();
 			if (n == 0 || n > cap) { fail(fmt("read_size: a read into %zu bytes of buffer reported %zu bytes", cap, n)); return; }
 			size_t left = n; for (auto& x : rd.rbufs) { size_t k = std::min(left, x.size()); if (k) consume(rd, wr, x.data(), k); left -= k; }
@@ -132,7 +132,7 @@ struct Exec
 		me.writer_active = true; me.inprog = sz;
 		me.s->async_write_some(cb, [this, &me, sz](error_code const& ec, std::size_t n) {
 			tick(); me.writer_active = false; me.inprog = 0;
-			if (ec) { if (ec != asio::error::operation_aborted) fail("write_error: " + ecs(ec)); return; }
+			if (ec) { if (ec != asio::error::operation_aborted) fail("write_error: " + ecs(ec)); else if (cancel_ms >= 0 && inc == 1 && !me.closed) pump_write(me); return; }
 			if (n == 0 || int(n) > sz) { fail(fmt("write_size: a write of %d bytes reported %zu bytes transferred", sz, n)); return; }
 			me.reported += int64_t(n); ++me.writes_completed;
 			if (int(n) < sz) me.plan[me.widx] = sz - int(n); else ++me.widx; // re-offer the remainder
@@ -156,6 +156,12 @@ struct Exec
 			late.emplace_back(new asio::high_resolution_timer(*nA)); late.back()->expires_after(ms(500));
 			late.back()->async_wait([this, rd, wr](error_code const& ec) { if (ec) return; tick(); post_read(*rd, *wr); }); }
 		pump_write(a); pump_write(b);
+		if (cancel_ms >= 0 && inc == 1 && !cancel_timer) {
+			cancel_timer.reset(new asio::high_resolution_timer(*nA)); cancel_timer->expires_after(ms(cancel_ms));
+			cancel_timer->async_wait([this](error_code const& ec) { if (ec) return; tick();
+				lg(fmt("@%lld both sides cancel(); each aborted read / write is issued again from its handler", (long long)now_ns()));
+				for (Side* me : { &a, &b }) { if (me->closed) continue; error_code ig; me->s->cancel(ig); } });
+		}
 	}
 
 	void setup_sides(bool first)
@@ -191,6 +197,8 @@ struct Exec
 	// C06 over the same executions: the adversary drops each packet at most once and only finitely many, so at
 	// quiescence nobody who never closed may still be blocked and everything written must have been delivered
 	bool want_progress = false; bool no_drops = false;
+	int cancel_ms = -1; // >= 0: at that time each side calls cancel() on its socket (the sockets stay open) and issues its read and write again
+	std::unique_ptr<asio::high_resolution_timer> cancel_timer;
 	void progress_checks()
 	{
 		if (cfg.close_mode != C_NEVER) return; // closing discards what still awaits retransmission (no linger)
@@ -259,7 +267,7 @@ struct Exec
 		(void)aborted;
 		{ error_code ig; cli->close(ig); srv->close(ig); acc->close(ig); try { sim->run(); } catch (abort_execution const&) {} }
 		adv->held.clear();
-		late.clear(); cli.reset(); srv.reset(); acc.reset(); nA.reset(); nB.reset(); sim.reset(); adv.reset(); w.reset();
+		cancel_timer.reset(); late.clear(); cli.reset(); srv.reset(); acc.reset(); nA.reset(); nB.reset(); sim.reset(); adv.reset(); w.reset();
 	}
 };
 
